@@ -118,6 +118,7 @@ func NewTarget(targetURL string, options TargetOptions) (*Target, error) {
 	}
 
 	target.proxyHandler = target.createProxyHandler()
+	verifAdjustProxy(target)
 
 	if options.BufferResponses {
 		target.proxyHandler = WithResponseBufferMiddleware(options.MaxMemoryBufferSize, options.MaxResponseBodySize, target.proxyHandler)
@@ -149,6 +150,7 @@ func (t *Target) StartRequest(req *http.Request) (*http.Request, error) {
 	defer t.inflightLock.Unlock()
 
 	if t.state == TargetStateDraining {
+		verifEmit("claim_refused", req, t)
 		return nil, ErrorDraining
 	}
 
@@ -157,6 +159,7 @@ func (t *Target) StartRequest(req *http.Request) (*http.Request, error) {
 
 	inflightRequest := &inflightRequest{cancel: cancel}
 	t.inflight[req] = inflightRequest
+	verifEmit("claim", req, t)
 
 	return req, nil
 }
@@ -179,6 +182,7 @@ func (t *Target) Drain(timeout time.Duration) {
 		return
 	}
 	defer t.updateState(originalState)
+	verifYield("drain_marked", t)
 
 	deadline := time.After(timeout)
 	toCancel := t.pendingRequestsToCancel()
@@ -199,6 +203,7 @@ WAIT_FOR_REQUESTS_TO_COMPLETE:
 		}
 	}
 
+	verifYield("drain_deadline", t)
 	// Cancel any remaining requests.
 	for _, inflight := range toCancel {
 		inflight.cancel(ErrorDraining)
@@ -237,6 +242,7 @@ func (t *Target) WaitUntilHealthy(timeout time.Duration) bool {
 // HealthCheckConsumer
 
 func (t *Target) HealthCheckCompleted(success bool) {
+	verifYield("hc_result", t, success)
 	previousState := t.state
 	newState := t.state
 
@@ -257,8 +263,10 @@ func (t *Target) HealthCheckCompleted(success bool) {
 			}
 		}
 		newState = t.state
+		verifEmit("hc_apply", t, success, int(newState))
 	})
 
+	verifYield("hc_applied", t, success)
 	if newState != previousState {
 		slog.Info("Target health updated", "target", t.Target(), "state", newState.String(), "was", previousState.String())
 
@@ -266,6 +274,7 @@ func (t *Target) HealthCheckCompleted(success bool) {
 			t.stateConsumer.TargetStateChanged(t)
 		}
 	}
+	verifYield("hc_notified", t, success)
 }
 
 // Private
@@ -393,6 +402,7 @@ func (t *Target) updateState(state TargetState) TargetState {
 
 	originalState := t.state
 	t.state = state
+	verifEmit("target_state", t, int(state), int(originalState))
 
 	return originalState
 }
@@ -412,6 +422,7 @@ func (t *Target) endInflightRequest(req *http.Request) {
 	if ok {
 		inflightRequest.cancel(nil)
 		delete(t.inflight, req)
+		verifEmit("end_inflight", req, t)
 	}
 }
 
